@@ -12,7 +12,7 @@ def run(tier: str, seed: int, replay=None) -> int:
     return eqlcheck.run_check(
         PROP, tier, seed, replay, profile="c01+quant", mode="set", n_quick=3000, n_thorough=40000,
         targets=["Props/C01.vo"],
-        in_fragment=lambda c: not eqlgen.classes(c),
+        in_fragment=lambda c: eqlcheck.FRAG.get(eqlcheck.case_key(c), False),
         modelled_classes=["K_notunion", "K_selprod", "K_emptydom", "K_quant_nofalse", "K_forall_open", "K_quant_shadow"],
         trusted=[
             "hand-written model Eql/Eval.v of symbolic.py (Variable/Literal/Attribute/Comparator/AND/ElseIf/Union/Not, "
@@ -24,7 +24,7 @@ def run(tier: str, seed: int, replay=None) -> int:
         assume=[
             "queries are tree-shaped: every Attribute/Comparator/logical node object occurs once (node reuse is finding class K_sharednode, replayed from its witness)",
             "vocabulary modelled: variables over explicit domains, literals, attribute chains, ==,!=,<,<=,>,>=, contains/in_, and_, or_, not_, entity/set_of; "
-            "exists/for_all are in the executable model and the Spec and are compared on every run, but the theorems do not cover them yet (cases with quantifiers count as outside the proved fragment); flatten/indexing/calls/predicates/sub-queries are not modelled (findings there are replayed from recorded witnesses)",
+            "exists/for_all are covered by the theorems under the static side conditions wfq / ok TS / ok TC (Props/C01.v: C01_q_sound_complete); the proved fragment of every generated case is the flag case_in_F01 COMPUTED IN COQ (theorem C01_fragment_flag), not a Python predicate; flatten/indexing/calls/predicates/sub-queries are not modelled (findings there are replayed from recorded witnesses)",
             "CPython generator protocol and itertools.product",
         ],
         rule=("seeded random queries (harness/eqlgen.py, profile c01): 1-3 variables over object / value-equal-twin / int domains of 0-4 "
